@@ -105,7 +105,10 @@ void run_dec_world() {
                 for (size_t k = 0; k < tus.size(); k++) {
                     if (teardown_after >= 0 && (int)k >= teardown_after) break;
                     // library must treat the input as read-only bytes: hand it an exact-size heap copy so that any overread is visible to ASan
-                    uint8_t *buf = (uint8_t *)malloc(tus[k].size() ? tus[k].size() : 1); if (tus[k].size()) memcpy(buf, tus[k].data(), tus[k].size());
+                    // (the decoder's word-based bit reader is designed to look 8 bytes ahead — a recorded finding; "exact_input" runs keep
+                    //  demonstrating it, all other runs give 16 zero bytes of slack so that ASan stays usable for everything else)
+                    size_t slack = g_case.geti("exact_input", 0) ? 0 : 16;
+                    uint8_t *buf = (uint8_t *)malloc(tus[k].size() + slack ? tus[k].size() + slack : 1); if (tus[k].size()) memcpy(buf, tus[k].data(), tus[k].size()); if (slack) memset(buf + tus[k].size(), 0, slack);
                     uint64_t d0 = sim_decision();
                     sim_api_enter(); EbErrorType ef = svt_av1_dec_frame(h, buf, tus[k].size(), annexb); sim_api_exit();
                     int got = 0;
